@@ -356,7 +356,7 @@ static void run_enc(uint64_t idx, Ctx& c) {
         bool do_throw_mode = repr || cp < 0x10000 || (cp % (g_enc_thin * 4)) == 0 || cp >= 0x10FFF0;
         if (do_throw_mode) {
             ToRes r = x_to(t, u.data(), u.size(), 16);
-            if (E.kind == R_UCS4BE && cp >= 0x10000 && !r.threw && r.eaten == 2 && r.out == ref_utf32_encode(cp, false)) {
+            if (E.kind == R_UCS4BE && cp >= 0x10000 && !r.threw && r.eaten == 2 && r.out == ref_utf32_encode(cp, false) && r.out != want) {
                 // exactly the known wrong behaviour: the supplementary value is emitted in native (little-endian) order
                 known_or_violation(c, "ucs4-swapped-supplementary-not-swapped", "\"cp\":" + std::to_string(cp) + ",\"expected\":" + jstr(hexs(want)) + ",\"observed\":" + jstr(hexs(r.out)));
                 continue;
